@@ -5,6 +5,7 @@ package main
 
 import (
 	"go/constant"
+	"go/token"
 	"go/types"
 	"strings"
 
@@ -52,6 +53,7 @@ func checkC14(w *World, r *Report) {
 	r.NotDecided = []string{"races between nodes beyond the compare-and-set (reduced to C13.a)", "emptiness of a recreated table beyond the fresh directory"}
 	r.Assume = []string{"C13: the metadata store is a compare-and-set map whose versions are never 0"}
 	c14Create(w, r)
+	c14Listing(w, r)
 	c14Seq(w, r)
 	c14Dir(w, r)
 	c14Delete(w, r)
@@ -60,6 +62,7 @@ func checkC14(w *World, r *Report) {
 	c14KeySpace(w, r)
 	if mt := metaType(w); mt != nil {
 		c13Snapshot(w, r, mt, "C14.h", "h-catalogue-snapshot-replaces")
+		c13StoreOps(w, r, "C14.j", "j-store-operations-unconditional")
 	}
 	c05Reconcile(w, r, "C14.i", "i-follower-catalogue-follows")
 }
@@ -344,7 +347,58 @@ func c14Delete(w *World, r *Report) {
 	if p := (&Walk{Barrier: isLock, Target: func(x ssa.Instruction) bool { return x == ssa.Instruction(get.(ssa.Instruction)) }}).Find(entry(fn)); p != nil {
 		ob.Violate("delete-unlocked", fn.Pos(), "DeleteTable reads the catalogue without the manager's write lock")
 	}
+	// success only when the versioned delete succeeded: a refused delete (version mismatch: the
+	// record was rewritten since it was read, and still exists) is not reported as a deletion
+	if dv, ok := del.(ssa.Value); ok {
+		dctx := &ExprCtx{Alias: map[ssa.Value]string{dv: "del"}}
+		isNilReturn := func(x ssa.Instruction) bool {
+			ret, ok := x.(*ssa.Return)
+			return ok && len(ret.Results) > 0 && isNilConst(retVal(ret, len(ret.Results)-1))
+		}
+		wk := &Walk{Target: isNilReturn, EdgeOK: func(b *ssa.BasicBlock, k int) bool {
+			for _, l := range dctx.EdgeLits(b, k) {
+				if l.Kind == "eq" && !l.Neg && l.B == "nil" && l.A == "del" {
+					return false
+				}
+			}
+			return true
+		}}
+		if p := wk.Find(after(del)); p != nil {
+			ob.Violate("delete-error-swallowed", instrPos(p.Hit), "DeleteTable can report success although the versioned delete was refused or failed: the table is still catalogued and served", w.PathString(p)...)
+		}
+	}
 	ob.NeedFloor(2)
+}
+
+// c14Listing: the catalogue listing hands out every record it decoded.
+func c14Listing(w *World, r *Report) {
+	ob := r.Ob("C14.k", "k-listing-complete", "Manager.getTables: the loop over the stored records visits every one of them, and every iteration that does not return an error crosses the insertion of the decoded record into the result (no record is filtered out)", "the listing feeds reconciliation and the lookup by id: a record that is catalogued but left out of the listing has its shard stopped as 'not catalogued' (a table whose first restore is still loading has ClusterID 0 and only a RecoverID)")
+	fn := w.Func("storage/table", "Manager.getTables")
+	if fn == nil {
+		ob.Undecided("anchor", "Manager.getTables not found")
+		return
+	}
+	n := 0
+	for _, sl := range sliceLoops(fn) {
+		st, isSlice := sl.Slice.Type().Underlying().(*types.Slice)
+		if !isSlice || !strings.HasSuffix(typeString(st.Elem()), "kv.Pair") {
+			continue
+		}
+		n++
+		isInsert := func(in ssa.Instruction) bool {
+			mu, ok := in.(*ssa.MapUpdate)
+			if !ok {
+				return false
+			}
+			mt, ok := mu.Map.Type().Underlying().(*types.Map)
+			return ok && typeIs(mt.Elem(), tablePath, "Table")
+		}
+		checkFullTraversal(w, ob, sl, "stored records", isInsert)
+	}
+	if n == 0 {
+		ob.Undecided("shape", "no loop over the stored records in getTables")
+	}
+	ob.NeedFloor(1)
 }
 
 func c14Diff(w *World, r *Report) {
@@ -368,7 +422,7 @@ func c14Diff(w *World, r *Report) {
 	lookups := map[string]ssa.Value{} // "running" / "catalogued" → the comma-ok value
 	eachInstr(fn, func(in ssa.Instruction) {
 		lk, ok := in.(*ssa.Lookup)
-		if !ok || !lk.CommaOk {
+		if !ok {
 			return
 		}
 		mt, ok := lk.X.Type().Underlying().(*types.Map)
@@ -378,6 +432,26 @@ func c14Diff(w *World, r *Report) {
 		kind := "running"
 		if typeIs(mt.Elem(), tablePath, "Table") {
 			kind = "catalogued"
+		}
+		if !lk.CommaOk {
+			// a set kept as map[K]bool into which only `true` is ever stored: the element is the
+			// membership
+			if b, isB := mt.Elem().Underlying().(*types.Basic); !isB || b.Kind() != types.Bool {
+				return
+			}
+			onlyTrue, n := true, 0
+			eachInstr(fn, func(x ssa.Instruction) {
+				if mu, ok := x.(*ssa.MapUpdate); ok && mu.Map == lk.X {
+					n++
+					if c, isC := mu.Value.(*ssa.Const); !isC || c.Value == nil || c.Value.Kind() != constant.Bool || !constant.BoolVal(c.Value) {
+						onlyTrue = false
+					}
+				}
+			})
+			if onlyTrue && n > 0 {
+				lookups[kind] = lk
+			}
+			return
 		}
 		if lk.Referrers() != nil {
 			for _, rr := range *lk.Referrers() {
@@ -574,13 +648,13 @@ func c14Isolation(w *World, r *Report) {
 			case "SyncRead":
 				e := strings.TrimLeft(Expr(c.Args[1]), "^")
 				ob.Site(in.Pos(), "SyncRead shard "+e+" in "+FnName(fn))
-				if e != "$0.Table.ClusterID" {
+				if e != "$0.Table.ClusterID" && e != "$0.ClusterID" {
 					ob.Violate("read-target@"+FnName(fn), in.Pos(), "a linearizable read is addressed to shard `"+e+"`, not the table's own shard")
 				}
 			case "StaleRead":
 				e := strings.TrimLeft(Expr(c.Args[0]), "^")
 				ob.Site(in.Pos(), "StaleRead shard "+e+" in "+FnName(fn))
-				if e != "$0.Table.ClusterID" {
+				if e != "$0.Table.ClusterID" && e != "$0.ClusterID" {
 					ob.Violate("read-target@"+FnName(fn), in.Pos(), "a local read is addressed to shard `"+e+"`, not the table's own shard")
 				}
 			case "SyncPropose":
@@ -619,6 +693,7 @@ func checkC15(w *World, r *Report) {
 	c15Worker(w, r, "C15.c", "c-worker-obeys-lease")
 	if mt := metaType(w); mt != nil {
 		c13Snapshot(w, r, mt, "C15.e", "e-store-snapshot-replaces")
+		c13StoreOps(w, r, "C15.f", "f-store-operations-unconditional")
 	}
 	// the compare-and-set the lease relies on: a version handed out once never comes back
 	// (versions are log indices), and a write needs the current version (shared with C13.a/b)
@@ -963,8 +1038,8 @@ func nameValidators(w *World) []*ssa.Function {
 		ctx := &ExprCtx{Alias: map[ssa.Value]string{}}
 		n := 0
 		eachInstr(fn, func(in ssa.Instruction) {
-			if isSeparatorTest(in, fn.Params[0]) {
-				ctx.Alias[in.(ssa.Value)] = "hasSep"
+			if a := separatorAlias(in, fn.Params[0]); a != "" {
+				ctx.Alias[in.(ssa.Value)] = a
 				n++
 			}
 		})
@@ -976,7 +1051,7 @@ func nameValidators(w *World) []*ssa.Function {
 		for _, b := range fn.Blocks {
 			for k := range b.Succs {
 				for _, l := range ctx.EdgeLits(b, k) {
-					if l.Kind == "bool" && !l.Neg && l.A == "hasSep" {
+					if sepPresent(l) {
 						for _, in := range (&Walk{}).ReachableInstrs(Loc{b.Succs[k], 0}) {
 							if ret, ok := in.(*ssa.Return); ok && !isErrorReturn(ret) {
 								good = false
@@ -989,7 +1064,7 @@ func nameValidators(w *World) []*ssa.Function {
 		// and a nil return is reachable only over !hasSep
 		wk := &Walk{Target: isSuccessReturn, EdgeOK: func(b *ssa.BasicBlock, k int) bool {
 			for _, l := range ctx.EdgeLits(b, k) {
-				if l.Kind == "bool" && l.Neg && l.A == "hasSep" {
+				if sepAbsent(l) {
 					return false
 				}
 			}
@@ -1005,7 +1080,79 @@ func nameValidators(w *World) []*ssa.Function {
 	return out
 }
 
-// isSeparatorTest: strings.Contains(v, "/") / ContainsRune / ContainsAny / IndexByte-style test on v.
+// sepPresent / sepAbsent: the literal says that the name contains / does not contain the separator.
+func sepPresent(l Lit) bool {
+	return l.Kind == "bool" && ((l.A == "hasSep" && !l.Neg) || (l.A == "noSep" && l.Neg))
+}
+
+func sepAbsent(l Lit) bool {
+	return l.Kind == "bool" && ((l.A == "hasSep" && l.Neg) || (l.A == "noSep" && !l.Neg))
+}
+
+// separatorAlias: "hasSep" if the instruction's value is true exactly when v contains '/',
+// "noSep" if it is true exactly when it does not, "" otherwise. Recognised: the Contains family,
+// and comparisons of the Index family (found: >= 0, > -1, != -1) and of Count (found: > 0, != 0,
+// >= 1) with a constant.
+func separatorAlias(in ssa.Instruction, v ssa.Value) string {
+	if isSeparatorTest(in, v) {
+		return "hasSep"
+	}
+	bo, ok := in.(*ssa.BinOp)
+	if !ok {
+		return ""
+	}
+	x, y, op := bo.X, bo.Y, bo.Op
+	if _, isC := x.(*ssa.Const); isC {
+		x, y = y, x
+		switch op {
+		case token.LSS:
+			op = token.GTR
+		case token.LEQ:
+			op = token.GEQ
+		case token.GTR:
+			op = token.LSS
+		case token.GEQ:
+			op = token.LEQ
+		}
+	}
+	k, isK := constInt(y)
+	call, isCall := x.(*ssa.Call)
+	if !isK || !isCall || len(call.Call.Args) != 2 || !sameValue(call.Call.Args[0], v) {
+		return ""
+	}
+	hasSlash := func(a ssa.Value) bool {
+		c, ok := a.(*ssa.Const)
+		if !ok || c.Value == nil {
+			return false
+		}
+		if c.Value.Kind() == constant.String {
+			return strings.Contains(constant.StringVal(c.Value), "/")
+		}
+		n, ok := constInt(a)
+		return ok && n == '/'
+	}
+	if !hasSlash(call.Call.Args[1]) {
+		return ""
+	}
+	var base int64
+	switch CalleeName(&call.Call) {
+	case "strings.Index", "strings.IndexByte", "strings.IndexRune", "strings.IndexAny", "strings.LastIndex", "strings.LastIndexByte", "strings.LastIndexAny":
+		base = -1 // "not found" value; found ⇔ result > base
+	case "strings.Count":
+		base = 0
+	default:
+		return ""
+	}
+	switch {
+	case op == token.GTR && k == base, op == token.GEQ && k == base+1, op == token.NEQ && k == base:
+		return "hasSep"
+	case op == token.EQL && k == base, op == token.LSS && k == base+1, op == token.LEQ && k == base:
+		return "noSep"
+	}
+	return ""
+}
+
+// isSeparatorTest: strings.Contains(v, "/") / ContainsRune / ContainsAny test on v.
 func isSeparatorTest(in ssa.Instruction, v ssa.Value) bool {
 	c := plainCall(in)
 	if c == nil || len(c.Args) != 2 || !sameValue(c.Args[0], v) {
@@ -1078,8 +1225,8 @@ func c14KeySpace(w *World, r *Report) {
 			if cal := StaticCallee(c); cal != nil && isValidator(cal) && len(c.Args) == 1 && sameValue(c.Args[0], p) {
 				ctx.Alias[in.(ssa.Value)] = "valid"
 			}
-			if isSeparatorTest(in, p) {
-				ctx.Alias[in.(ssa.Value)] = "hasSep"
+			if a := separatorAlias(in, p); a != "" {
+				ctx.Alias[in.(ssa.Value)] = a
 			}
 		})
 		wk := &Walk{Target: func(x ssa.Instruction) bool { return x == at }, EdgeOK: func(b *ssa.BasicBlock, k int) bool {
@@ -1087,7 +1234,7 @@ func c14KeySpace(w *World, r *Report) {
 				if l.Kind == "eq" && !l.Neg && l.B == "nil" && l.A == "valid" {
 					return false
 				}
-				if l.Kind == "bool" && l.Neg && l.A == "hasSep" {
+				if sepAbsent(l) {
 					return false
 				}
 			}
